@@ -34,7 +34,14 @@ RULE = (
     "atol = 0: unequal) and aequals / diff without tolerance (names exactly that member), from both sides; (ii) rank / kernel results "
     "and comparators holding them identical in method, values and extra whose alternatives are the same labels (strings, whole "
     "numbers) in another order (two swapped, reversed, rotated, shuffled): unequal at every tolerance, diff names `alternatives` "
-    "(`ranks`), from both sides; (iii) every kind of left operand (matrix, rank result, kernel result, comparator) compared with "
+    "(`ranks`), from both sides; (iv) rank / kernel results and comparators holding them whose extra (top level, or a mapping nested "
+    "one / two levels down) have the SAME NUMBER of entries under DIFFERENT KEY NAMES, the entries only one side has holding None "
+    "({'score': a, 'lambda_': None} | {'score': a, 'iterations': 7}; {'p': None} | {'q': None}; two such entries; the only entries "
+    "of the mapping; either side the None-only one; before / after the shared entries): unequal from BOTH sides at every tolerance, "
+    "diff names `extra_` (`ranks`) - every (kind, holder) in turn; (v) comparators whose contained ranks (first / last / middle / "
+    "every one) differ ONLY in method (a character, case, a blank, '') or ONLY in extra (int, str, nested int, value type, an entry "
+    "renamed, None | 0 / '' / {} / empty array, one more entry holding None): exactly `ranks` differs, from both sides; "
+    "(iii) every kind of left operand (matrix, rank result, kernel result, comparator) compared with "
     "UNRELATED objects of awkward shapes, every kind with every left operand in every run: ragged nested sequences (rows of "
     "different lengths - random, the documented [[1, 2, 3], [4, 5]] / [1, [2, 3]] shapes, the left operand's own shape with one row "
     "a cell longer / shorter - as lists, tuples, lists of arrays, object arrays, Series of lists, dict values, generators, sets of "
@@ -67,7 +74,7 @@ ASSUMPTIONS = [
 PARTIAL = (
     "the tie to Python is differential; IEEE rounding inside np.allclose is not modelled (near-boundary comparisons are skipped and "
     "counted); inf values, string arrays and arbitrary objects inside extras are outside the model; pairs whose extras differ only in "
-    "the concrete (sub)type of a value (np.float64, bool, OrderedDict, subclasses) are judged by the property oracle alone "
+    "the concrete (sub)type of a value (np.float64, bool, OrderedDict, subclasses), or whose extras hold None, are judged by the property oracle alone "
     "(nothing raises, ==/!=/equals/aequals/diff/assert_* answer the same from both sides, diff names at most that member)"
 )
 EXHAUSTIVE = False
@@ -195,6 +202,8 @@ def _mk_extra(spec):
             v = float(_num(e["v"]))
         elif t == "dict":
             v = _mk_extra(e["v"])
+        elif t == "none":  # an option that was left unset (outside the model's extras: oracle-only cases)
+            v = None
         else:
             raise KeyError(t)
         out[k] = _as_type(v, e.get("as"))
@@ -1120,6 +1129,10 @@ def tags(case, obs):
         t.append("tiny-float-change:" + case["tiny"])
     if case.get("altperm"):
         t.append("alternatives-reordered:" + case["altperm"])
+    if case.get("keynames"):
+        t.append("extra-same-count-other-key-names:" + case["keynames"])
+    if case.get("rankonly"):
+        t.append("comparator-rank-differs-only-in:" + case["rankonly"])
     if not case.get("finite", True):
         t.append("has-nan")
     if obs.get("_skipped_near"):
@@ -1868,6 +1881,150 @@ def _whole_number_labels(rng, n):
     return rng.sample(range(0, 40), n)
 
 
+# ---- extras with the SAME NUMBER of entries under DIFFERENT KEY NAMES (the entries only one side has hold None)
+
+KEYNAME_KINDS = ["none-vs-value", "none-vs-none", "two-none-vs-two-values", "none-vs-value:only-entry", "none-vs-none:only-entry",
+                 "two-none-vs-none+value"]
+KEYNAME_PLACES = ["top", "nested", "top", "nested-2"]
+KEYNAME_HOLDERS = ["rank", "kernel", "rcmp"]
+OPTION_KEYS = ["lambda_", "iterations", "tol", "eps", "p", "r", "seed", "njobs", "max_iter", "w0", "criterion", "alpha"]
+
+
+def _option_value(rng, n):
+    """a value (not None) an entry of extra may hold"""
+    family = rng.choice(["dyadic", "float"])
+    return rng.choice([{"t": "int", "v": rng.randint(0, 9)}, {"t": "int", "v": 0}, {"t": "float", "v": _fval(rng, family)},
+                       {"t": "str", "v": rng.choice(["a", "euclidean", "", "None"])},
+                       {"t": "farr", "shape": [max(n, 1)], "data": [_fval(rng, family) for _ in range(max(n, 1))]},
+                       {"t": "iarr", "shape": [2], "data": [rng.randint(0, 9), rng.randint(0, 9)]},
+                       {"t": "dict", "v": {}}, {"t": "dict", "v": {"a": {"t": "int", "v": 1}}}])
+
+
+def _keynames_pair(rng, spec, kind, place):
+    """(left, right, has_none): the result `spec` twice; one mapping of extra (the top level, or a nested mapping one / two levels
+    down) holds on both sides the same shared entries plus the SAME NUMBER of further entries under DIFFERENT NAMES - those of one
+    side all hold None (an option left unset), those of the other side hold None or a value.  Which side holds the None-only
+    entries, and whether they come before or after the shared ones, is drawn."""
+    left = _copy.deepcopy(spec)
+    n = len(spec["alternatives"])
+    only = kind.endswith(":only-entry")
+    if place == "top":
+        if only:
+            left["extra"] = {}
+        path = []
+    else:
+        inner = {} if only else gen_extra(rng, n, depth=2)
+        if not only and not inner:
+            inner = {"a": {"t": "int", "v": 1}}
+        k1 = rng.choice(["info", "sub", "params"])
+        if place == "nested":
+            left["extra"][k1] = {"t": "dict", "v": inner}
+            path = [k1]
+        else:
+            left["extra"][k1] = {"t": "dict", "v": {"opts": {"t": "dict", "v": inner}, "k": {"t": "int", "v": 2}}}
+            path = [k1, "opts"]
+    if place == "top" and not only and not left["extra"]:
+        left["extra"]["score"] = {"t": "farr", "shape": [n], "data": [_fval(rng, "dyadic") for _ in range(n)]}
+    right = _copy.deepcopy(left)
+
+    def mapping(s):
+        t = s["extra"]
+        for p in path:
+            t = t[p]["v"]
+        return t
+
+    base = kind.split(":")[0]
+    cnt = 2 if base.startswith("two-") else 1
+    names = rng.sample(OPTION_KEYS, 2 * cnt)
+    a_names, b_names = names[:cnt], names[cnt:]
+    a_new = {k: {"t": "none"} for k in a_names}  # the side whose own entries all hold None
+    if base == "none-vs-value":
+        b_new = {b_names[0]: _option_value(rng, n)}
+    elif base == "none-vs-none":
+        b_new = {b_names[0]: {"t": "none"}}
+    elif base == "two-none-vs-two-values":
+        b_new = {k: _option_value(rng, n) for k in b_names}
+    else:  # two-none-vs-none+value
+        b_new = {b_names[0]: {"t": "none"}, b_names[1]: _option_value(rng, n)}
+    if rng.random() < 0.5:
+        a_new, b_new = b_new, a_new
+
+    def put(s, new):
+        t = mapping(s)
+        if rng.random() < 0.5:  # the new entries first
+            old = dict(t)
+            t.clear()
+            t.update(new)
+            t.update(old)
+        else:
+            t.update(new)
+
+    put(left, a_new)
+    put(right, b_new)
+    assert len(mapping(left)) == len(mapping(right)) and set(mapping(left)) != set(mapping(right))
+    return left, right, True
+
+
+def _other_method(rng, m):
+    """a method name different from `m`: one character appended / dropped, another case, surrounding blank, another name"""
+    cands = [m + "2", m + " ", " " + m, m.upper(), m.lower(), m.swapcase(), m[:-1], m[1:], m + m, "", rng.choice(METHODS),
+             m.replace("e", "E"), "None"]
+    cands = [c for c in cands if c != m]
+    return rng.choice(cands)
+
+
+RANK_EXTRA_CHANGES = ["int", "str", "rename", "rename-none", "type", "one-more-none", "none-vs-zero", "nested-int"]
+
+
+def _only_extra(rng, spec, how):
+    """(left, right, has_none): the rank `spec` twice, differing ONLY in extra by a change compared exactly (never a tolerance)"""
+    left = _copy.deepcopy(spec)
+    n = len(spec["alternatives"])
+    ex = left["extra"]
+    if how == "int":
+        ex.setdefault("rank_by", {"t": "int", "v": rng.randint(0, 3)})
+        if ex["rank_by"]["t"] != "int":
+            ex["rank_by"] = {"t": "int", "v": 1}
+        right = _copy.deepcopy(left)
+        right["extra"]["rank_by"]["v"] += rng.choice([1, -1, 2])
+        return left, right, False
+    if how == "str":
+        ex["name"] = {"t": "str", "v": rng.choice(["a", "b", "euclidean", ""])}
+        right = _copy.deepcopy(left)
+        right["extra"]["name"]["v"] = _other_method(rng, ex["name"]["v"])
+        return left, right, False
+    if how in ("rename", "rename-none"):
+        k1, k2 = rng.sample(OPTION_KEYS, 2)
+        v = {"t": "none"} if how == "rename-none" else _option_value(rng, n)
+        ex[k1] = v
+        right = _copy.deepcopy(left)
+        right["extra"] = {(k2 if k == k1 else k): e for k, e in right["extra"].items()}  # the same entry under another name
+        return left, right, how == "rename-none"
+    if how == "type":
+        v = rng.randint(0, 5)
+        ex["k"] = {"t": "int", "v": v}
+        right = _copy.deepcopy(left)
+        right["extra"]["k"] = {"t": "float", "v": float(v)}
+        return left, right, False
+    if how == "one-more-none":
+        right = _copy.deepcopy(left)
+        right["extra"][rng.choice(OPTION_KEYS)] = {"t": "none"}
+        return left, right, True
+    if how == "none-vs-zero":
+        k = rng.choice(OPTION_KEYS)
+        ex[k] = {"t": "none"}
+        right = _copy.deepcopy(left)
+        right["extra"][k] = rng.choice([{"t": "int", "v": 0}, {"t": "float", "v": 0.0}, {"t": "str", "v": ""}, {"t": "str", "v": "None"},
+                                        {"t": "dict", "v": {}}, {"t": "farr", "shape": [0], "data": []}])
+        return left, right, True
+    if how == "nested-int":
+        ex["info"] = {"t": "dict", "v": {"a": {"t": "int", "v": rng.randint(0, 5)}, "b": {"t": "str", "v": "x"}}}
+        right = _copy.deepcopy(left)
+        right["extra"]["info"]["v"]["a"]["v"] += 1
+        return left, right, False
+    raise KeyError(how)
+
+
 def _mk(relation, left, right, tols, **kw):
     c = {"relation": relation, "left": left, "right": right, "tols": tols}
     c.update(kw)
@@ -2199,4 +2356,49 @@ def gen(ctx):
             member = "alternatives"
         cases.append(_mk("one_member", left, right, _tols(ctx, rng), member=member, change={}, both_ways=True,
                          altperm="%s:%s:%s" % (holder, labels, how)))
+
+    # 8. (a fixed share of every run) rank / kernel results - also inside comparators - identical in method, alternatives and
+    #    values whose extra (top level, or a mapping nested one / two levels down) have the SAME NUMBER of entries under DIFFERENT
+    #    KEY NAMES, the entries only one side has holding None ({'score': a, 'lambda_': None} | {'score': a, 'iterations': 7},
+    #    {'p': None} | {'q': None}, ...): exactly `extra_` (`ranks`) differs - unequal from BOTH sides at every tolerance, diff
+    #    names that member.  None is outside the model's extras: property oracle only.  Every (kind, holder) in turn.
+    for it in range(ctx.n(48, 720)):
+        holder = KEYNAME_HOLDERS[it % 3]
+        kind = KEYNAME_KINDS[(it // 3) % len(KEYNAME_KINDS)]
+        place = KEYNAME_PLACES[(it + it // 18) % len(KEYNAME_PLACES)]
+        if holder == "rcmp":
+            left = gen_rcmp(rng, n=rng.choice([1, 2, 3, 4]))
+            i = rng.randrange(len(left["ranks"]))
+            li, ri, _ = _keynames_pair(rng, left["ranks"][i][1], kind, place)
+            left["ranks"][i][1] = li
+            right = _copy.deepcopy(left)
+            right["ranks"][i][1] = ri
+            member = "ranks"
+        else:
+            left, right, _ = _keynames_pair(rng, gen_result(rng, n=rng.choice([1, 2, 3, 4, 5]), typ=holder), kind, place)
+            member = "extra_"
+        cases.append(_mk("one_member", left, right, _tols(ctx, rng), member=member, change={}, both_ways=True, oracle_only=True,
+                         keynames="%s:%s:%s" % (holder, kind, place)))
+
+    # 9. (a fixed share of every run) comparators whose contained ranks differ ONLY in method (one character, case, a blank, '')
+    #    or ONLY in extra (an int / str / nested int, the type of a value, an entry renamed, None | 0 / '' / {} / [], one more entry
+    #    holding None) - in the first, the last, a middle or every ranking: exactly `ranks` differs, from both sides
+    for it in range(ctx.n(36, 400)):
+        k = rng.choice([2, 3, 4])
+        left = gen_rcmp(rng, n=rng.choice([1, 2, 3, 4]), k=k)
+        where = ["first", "last", "middle", "every"][(it // 9) % 4] if k > 2 else ["first", "last", "every"][(it // 9) % 3]
+        idx = {"first": [0], "last": [k - 1], "middle": [k // 2], "every": list(range(k))}[where]
+        how = (["method"] + RANK_EXTRA_CHANGES)[it % 9]
+        right = _copy.deepcopy(left)
+        has_none = False
+        for i in idx:
+            if how == "method":
+                right["ranks"][i][1]["method"] = _other_method(rng, left["ranks"][i][1]["method"])
+            else:
+                li, ri, hn = _only_extra(rng, left["ranks"][i][1], how)
+                left["ranks"][i][1], right["ranks"][i][1] = li, ri
+                has_none = has_none or hn
+        extra_kw = {"oracle_only": True} if has_none else {}
+        cases.append(_mk("one_member", left, right, _tols(ctx, rng), member="ranks", change={}, both_ways=True,
+                         rankonly="%s:%s" % (how if how == "method" else "extra:" + how, where), **extra_kw))
     return cases
